@@ -119,7 +119,7 @@ DofEvent(e) ==
       [] e.ev = "Write"   -> <<e.res # "ok" \/ ~LayoutKnown \/ e.len = CF_TotalSize(Specs), "file-size">>
       [] e.ev = "WalkEnd" -> LET tspecs == Specs  tseen == tcf.seen IN
                              <<~LayoutKnown \/ [ti \in 1..Len(tseen) |-> <<tseen[ti].tag, tseen[ti].size>>] = tspecs, "chunk-order-or-size">>
-      [] e.ev = "Parse"   -> <<e.res # "ok" \/ e.det = (IF Wdt THEN DetectVersion(tdef.hasMaid, MwmoWritten(tdef), tdef.hasModf, tdef.flags, tdef.ver)
+      [] e.ev = "Parse"   -> <<e.res # "ok" \/ ~LayoutKnown \/ e.det = (IF Wdt THEN DetectVersion(tdef.hasMaid, MwmoWritten(tdef), tdef.hasModf, tdef.flags, tdef.ver)
                                                       ELSE DetectWdl(WdlTagsPresent(tdef), IF tdef.mode = "latest" THEN "Latest" ELSE tdef.ver)),
                                "detected-version">>
       [] e.ev = "Convert" -> IF Wdt /\ e.res = "ok"
